@@ -174,6 +174,7 @@ fn main() {
                 println!("{:?} find {:?} -> {:?}; is_match={}", args[2], t, re.find(t).map(|m| (m.start(), m.end())), re.is_match(t));
             }
         }
+        Some("build-json") => std::process::exit(checks::c10::build_json_main()),
         Some("big") => {
             let kind = args.get(2).cloned().unwrap_or_default();
             let n: usize = args.get(3).and_then(|s| s.parse().ok()).unwrap_or(10);
